@@ -165,3 +165,9 @@ package yubiattest
 
 //@ # distinct serials give distinct strings: the alphabet has 16 distinct characters
 //@ lemma mhchar_injective(a int, b int): (0 <= a && a < 16 && 0 <= b && b < 16 && mhchar(a) == mhchar(b)) ==> a == b
+
+//@ # ---------------------------------------------------------------- C16: the lenient certificate parser (ASSUMED: its ASN.1 body is not verified)
+//@ func ParseCertificate(asn1Data)
+//@   flag logged
+//@   ensures result1 != nil ==> result0 == nil
+//@   ensures result1 == nil ==> (result0 != nil && fresh(result0))
